@@ -47,12 +47,13 @@ def compare_layouts(m, chunk):
     out = []
     r1 = np.array([101.0, 103.0, 107.0])
     r2 = np.array([[101.0, 103.0, 107.0], [109.0, 113.0, 127.0]])
-    stamps = np.array([0.0, 0.25, 0.75, 1.0, 2.0])
-    dtv = np.hstack([0.25, np.diff(stamps)])
+    stamps0 = np.array([0.0, 0.25, 0.75, 1.0, 2.0])
+    dtv = np.hstack([0.25, np.diff(stamps0)])
     R = np.array([[1.0, 2.0, 3.0], [-2.0, 0.5, 4.0], [0.25, -1.0, 2.0], [8.0, 1.0, -0.5], [3.0, 3.0, 3.0]])
     for L in chunk:
         mask = L["mask"]
         b = bits(mask)
+        stamps = stamps0 + (0.0, 256.0, -8.0)[mask % 3]       # the time axis may start anywhere (intervals are what matters)
         args = dict(bias_sd=[P_BIAS[a] if b["bias"][a] else 0.0 for a in range(3)],
                     noise=[P_NOISE[a] if b["noise"][a] else 0.0 for a in range(3)],
                     bias_walk=[P_WALK[a] if b["walk"][a] else 0.0 for a in range(3)],
@@ -261,6 +262,28 @@ def noise_observations(m, seed):
     obs.append(dict(kind="walk", exponent=int(np.round(np.log(ve / vq) / np.log(stamps[-1] / stamps[iq]))), exact=False,
                     percent=int(round(100 * ve / stamps[-1]))))
     obs.append(dict(kind="walk_growth", exponent=0, exact=False, percent=int(round(100 * (ve / vq) / (stamps[-1] / stamps[iq])))))
+    # exact laws: the random terms depend on the sampling intervals only, not on where the time axis starts
+    T = np.array([[1.0, 0.25, 0.0], [-0.125, 1.5, 0.0], [0.0, 0.0, 0.75]])
+    R = np.random.RandomState(seed % (2 ** 31)).randint(-8, 9, (len(stamps), 3)).astype(float)
+    first_ok, finite_ok = True, True
+    shift_ok = {"rate": True, "increment": True}
+    for t0 in (256.0, 1024.0, -8.0, -1024.0):
+        for stype in ("rate", "increment"):
+            outs = []
+            for off in (0.0, t0):
+                par = IS.Parameters(transform=T, bias=[1.0, -2.0, 0.5], noise=sig, bias_walk=q, rng=(seed + 5) % (2 ** 31))
+                out = par.apply(pd.DataFrame(R, index=stamps + off, columns=["a", "b", "c"]), stype)
+                outs.append((out.values, par.data_frame.values))
+                if not np.array_equal(par.data_frame[["bias_x", "bias_y", "bias_z"]].values[0], [1.0, -2.0, 0.5]):
+                    first_ok = False
+                if not (np.isfinite(out.values).all() and np.isfinite(par.data_frame.values).all()):
+                    finite_ok = False
+            if not (np.array_equal(outs[0][0], outs[1][0]) and np.array_equal(outs[0][1], outs[1][1])):
+                shift_ok[stype] = False
+    obs.append(dict(kind="walk_starts_at_first_sample", holds=bool(first_ok), exponent=0, percent=100))
+    obs.append(dict(kind="finite_for_negative_time", holds=bool(finite_ok), exponent=0, percent=100))
+    for stype in ("rate", "increment"):
+        obs.append(dict(kind="shift_invariant_" + stype, holds=bool(shift_ok[stype]), exponent=0, percent=100))
     return obs
 
 
@@ -464,7 +487,8 @@ def check(rep, pid, tier, seed):
                 seen += 1
                 o = obs[v[1] - 1]
                 if not (v[3] and v[4]):
-                    rep.violation("C14 simulated %s noise: exponent %s, variance %d %% of what the estimator assumes" % (o["kind"], o["exponent"], o["percent"]),
+                    rep.violation(("C14 simulator law '%s' does not hold" % o["kind"]) if "holds" in o else
+                                  "C14 simulated %s noise: exponent %s, variance %d %% of what the estimator assumes" % (o["kind"], o["exponent"], o["percent"]),
                                   dict(kind="noise", obs=o), key="noise")
         if seen != len(obs):
             rep.machinery("SensorNoise validated %d of %d observations" % (seen, len(obs)))
